@@ -27,13 +27,53 @@
      bit2 <=, bit3 >, bit4 >=, bits5-6 partial_cmp with 1 Less 2 Equal 3 Greater, bit7 !=) are exactly the outputs of
      the quiet predicates equal, less, less_equal, greater, greater_equal, not_equal, the partial_cmp code is the
      relation itself, never None, and no flag is raised.
+   * what is executed: the correspondence run judges predicate number i (harness op "cmp", arguments x y i) against
+     [expected OCmp md [x; y; i]] and the operator bits (harness op "ops") against [expected OOps md [x; y]]; [C03_dispatch]
+     says these are the lists m_cmp x y i and m_ops x y that the theorems here talk about (the mode plays no role).
+     Numbering of the predicates (harness order = the order of the crate's function table) and the relations for which each
+     answers true in the model ([pred_rels], Example [C03_pred_numbering]; L less, E equal, G greater, U unordered):
+        0 quiet_equal               E        10 quiet_ordered                 L E G
+        1 quiet_greater             G        11 quiet_unordered               U
+        2 quiet_greater_equal       G E      12 signaling_greater             G
+        3 quiet_greater_unordered   G U      13 signaling_greater_equal       G E
+        4 quiet_less                L        14 signaling_greater_unordered   G U
+        5 quiet_less_equal          L E      15 signaling_less                L
+        6 quiet_less_unordered      L U      16 signaling_less_equal          L E
+        7 quiet_not_equal           L G U    17 signaling_less_unordered      L U
+        8 quiet_not_greater         L E U    18 signaling_not_greater         L E U
+        9 quiet_not_less            G E U    19 signaling_not_less            G E U
+     (12..19 signal invalid on any NaN: [pred_signaling i] = (12 <=? i); [C03_pred_flags].) That the harness calls the
+     function of that NAME for number i is a fact about harness/src (trusted, see DESIGN section 14).
    Not covered here: the operators on NaN operands (that is C20); the status word passed *in* (the harness ORs the
      raised flags into it; the model returns the raised set only). *)
 From Coq Require Import ZArith Reals Bool List.
 From Flocq Require Import Core.Core.
-From DV Require Import Base Bid BidProofs OpsArith OpsCmp CmpProofs.
+From DV Require Import Base Bid BidProofs OpsArith OpsCmp CmpProofs Judge DispatchProofs.
 Import ListNotations.
 Open Scope Z_scope.
+
+(* ---------- dispatch: the harness operations "cmp" and "ops" are judged against m_cmp and m_ops ---------- *)
+Theorem C03_dispatch : forall md x y i,
+  expected OCmp md [x; y; i] = Exact (m_cmp x y i) /\ expected OOps md [x; y] = Exact (m_ops x y).
+Proof. exact dispatch_cmp. Qed.
+Print Assumptions C03_dispatch.
+
+(* the numbering, next to the names in the header comment: predicate i answers true exactly for these relations *)
+Example C03_pred_numbering :
+  map pred_rels [0; 1; 2; 3; 4; 5; 6; 7; 8; 9; 10; 11; 12; 13; 14; 15; 16; 17; 18; 19] =
+  [ (*  0 quiet_equal *) [REq];                 (*  1 quiet_greater *) [RGt];
+    (*  2 quiet_greater_equal *) [RGt; REq];    (*  3 quiet_greater_unordered *) [RGt; RUn];
+    (*  4 quiet_less *) [RLt];                  (*  5 quiet_less_equal *) [RLt; REq];
+    (*  6 quiet_less_unordered *) [RLt; RUn];   (*  7 quiet_not_equal *) [RLt; RGt; RUn];
+    (*  8 quiet_not_greater *) [RLt; REq; RUn]; (*  9 quiet_not_less *) [RGt; REq; RUn];
+    (* 10 quiet_ordered *) [RLt; REq; RGt];     (* 11 quiet_unordered *) [RUn];
+    (* 12 signaling_greater *) [RGt];           (* 13 signaling_greater_equal *) [RGt; REq];
+    (* 14 signaling_greater_unordered *) [RGt; RUn];
+    (* 15 signaling_less *) [RLt];              (* 16 signaling_less_equal *) [RLt; REq];
+    (* 17 signaling_less_unordered *) [RLt; RUn];
+    (* 18 signaling_not_greater *) [RLt; REq; RUn]; (* 19 signaling_not_less *) [RGt; REq; RUn] ] /\
+  map pred_signaling [0; 11; 12; 19] = [false; false; true; true].
+Proof. vm_compute. split; reflexivity. Qed.
 
 (* ---------- the comparison core ---------- *)
 Theorem C03_cmp_mag_correct : forall cx qx cy qy, 0 <= cx -> 0 <= cy ->
